@@ -199,6 +199,9 @@ var c01Journals = []string{
 	"2001-01-01 shop\n    expenses:food  $7\n    assets:bank\n\n2001-01-02 cafe\n    expenses:coffee  2 EUR\n    assets:cash\n\n2001-01-05 shop\n",
 	"",
 	"2001-01-01 🍕 pizza\r\n    expenses:food  $5\r\n    assets:cash\r\n\r\n2001-01-05 🍕 pizza\r\n",
+	// includes the second URI's file (which exists in the editor only): the answers
+	// for this text also depend on what the other document holds, or held
+	"include other.journal\n\n2001-01-05 shop\n",
 }
 
 type c01Op struct {
@@ -360,12 +363,16 @@ func c01History(c *core.Ctx, ops []c01Op) (key string, applicable bool) {
 					fmt.Sprintf("after %v\nserver holds %q\nclient holds %q", ops, got, rb.String()), cas)
 				continue
 			}
-			// freshness: answers equal those of a fresh server that only opened this text
+			// freshness: answers equal those of a fresh server that only opened the
+			// texts that are open now (the other document first)
 			have := c01Answers(s, uri, rb.String())
 			server.VerifxResetGlobals()
 			f := wire.New()
 			f.Initialize(wire.InitOpts{})
 			f.Initialized()
+			if ob, otherOpen := ref[1-u]; otherOpen {
+				f.DidOpen(c01URIOf(1-u), ob.String())
+			}
 			f.DidOpen(uri, rb.String())
 			want := c01Answers(f, uri, rb.String())
 			for k := range want {
